@@ -123,11 +123,19 @@ func Harness_app_pipeline() {
 	// ---- the book as text
 	var book []hpRecipe
 	posBook := verifBound("posbook", 0) == 1 // book amounts assumed positive: the sign of a contribution is the sign of the logged quantity
+	// with bound zeroamt one chosen ingredient has the amount 0 exactly (the others stay positive)
+	zeroAt, ingNo := -1, 0
+	if verifBound("zeroamt", 0) == 1 {
+		zeroAt = verifChoose("zero-amount", 6) - 1
+	}
 	ing := func(n string) (string, hpIng) {
 		tok, v := hpNum("amt")
-		if posBook {
+		if ingNo == zeroAt {
+			verifAssume(v == 0)
+		} else if posBook {
 			verifAssume(v > 0)
 		}
+		ingNo++
 		return "  " + n + ": " + tok + "\n", hpIng{n, v}
 	}
 	mkRecipe := func(name string, names []string) (string, hpRecipe) {
